@@ -8,6 +8,7 @@ import PyGqlModel.Lemmas.LexRender
 import PyGqlModel.Lemmas.LexChars
 import PyGqlModel.Lemmas.LexTiles
 import PyGqlModel.Lemmas.LexComplete
+import PyGqlModel.Lemmas.LexCompleteBlock
 
 namespace PyGql.Props.C01
 open PyGql.Lex PyGql.StringUtils
@@ -104,19 +105,87 @@ example : (lexAll [123, 97, 44, 49, 46, 53, 101, 48, 53, 32, 35, 99, 10, 65279, 
 /-! ### completeness: `lex_render` -/
 
 /-- THE FULL STATEMENT `lex_render`: every tiling of a text by ignored runs and complete lexemes (each followed by
-    something its kind allows) is what the lexer returns — so the choice of ignored runs is irrelevant. -/
+    something its kind allows) is what the lexer returns — so the choice of ignored runs is irrelevant.
+    Proved: `lex_render` below. -/
 def LexRenderStatement : Prop :=
   ∀ (s : Text) (body : List Tok), Tiles s.length s body → lexAll s = .ok (sofTok :: body)
 
-/-- token kinds for which the completeness of `__next__` is proved: punctuators, `...`, names, quoted strings -/
-def Rendered (k : TokKind) : Prop := k ≠ .int ∧ k ≠ .float ∧ k ≠ .blockString
-
-private theorem lexeme_ne_nil (k : TokKind) (lex v : Text) (hk : Rendered k) (hl : Lexeme k lex v) : lex ≠ [] := by
+private theorem lexeme_ne_nil (k : TokKind) (lex v : Text) (hl : Lexeme k lex v) : lex ≠ [] := by
   intro h; subst h
   cases k <;> simp [Lexeme, Spec.Lexical.punctuator, TokKind.constText, Spec.Lexical.isName,
-    Spec.Lexical.stringValue, Rendered] at hl hk
+    Spec.Lexical.stringValue, Spec.Lexical.isIntValue, Spec.Lexical.isFloatValue, Spec.Lexical.isIntegerPart,
+    Spec.Lexical.stripNegativeSign, Spec.Lexical.blockStringRaw, List.isPrefixOf] at hl
 
-private theorem next_complete (n : Nat) (ign lex rest v : Text) (k : TokKind) (hk : Rendered k)
+private theorem ts_cons (c : Nat) (t : Text) (h : (Lex.isIgnored c || c == 35) = false) : tokenStart (c :: t) := by
+  simpa [tokenStart, Spec.Lexical.startsWith] using h
+
+/-- the first character of a lexeme of any kind is neither ignored nor `#` -/
+private theorem lexeme_tokenStart (k : TokKind) (lex v rest : Text) (hl : Lexeme k lex v) : tokenStart (lex ++ rest) := by
+  have h128 : ∀ c, c < 128 → (c = 45 ∨ Lex.isDigit c = true ∨ c = 34) → (Lex.isIgnored c || c == 35) = false := by decide
+  have num : ∀ (l r : Text), Spec.Lexical.isIntegerPart l = true → tokenStart (l ++ r) := by
+    intro l r h
+    simp only [Spec.Lexical.isIntegerPart] at h
+    cases l with
+    | nil => simp [Spec.Lexical.stripNegativeSign] at h
+    | cons c t =>
+      by_cases hc : c = 45
+      · subst hc; exact ts_cons _ _ (by decide)
+      · have hs : Spec.Lexical.stripNegativeSign (c :: t) = c :: t := by
+          unfold Spec.Lexical.stripNegativeSign
+          split
+          · rename_i heq; simp at heq; exact absurd heq.1 hc
+          · rfl
+        rw [hs] at h
+        have hd : Lex.isDigit c = true := by
+          rw [isDigit_spec]
+          simp [Spec.Lexical.isNonZeroDigit, Spec.Lexical.isDigit] at h ⊢
+          rcases h with ⟨rfl, _⟩ | ⟨h, _⟩ <;> omega
+        have hlt : c < 128 := by rw [isDigit_spec] at hd; simp [Spec.Lexical.isDigit] at hd; omega
+        exact ts_cons _ _ (h128 c hlt (Or.inr (Or.inl hd)))
+  cases k with
+  | sof => exact absurd hl (by simp [Lexeme])
+  | eof => exact absurd hl (by simp [Lexeme])
+  | int => exact num lex rest hl.1
+  | float =>
+    obtain ⟨ip, frac, exp, rfl, hip, _⟩ := PrintLex.floatShape_of_isFloatValue lex hl.1
+    rw [List.append_assoc]; exact num ip _ hip
+  | name =>
+    cases lex with
+    | nil => simp [Lexeme, Spec.Lexical.isName] at hl
+    | cons c t =>
+      simp only [Lexeme, Spec.Lexical.isName, Bool.and_eq_true] at hl
+      obtain ⟨_, _, _, _, _, hi, h35, _⟩ := nameStart_dispatch c hl.1.1
+      exact ts_cons _ _ (by simp [hi, h35])
+  | string =>
+    cases lex with
+    | nil => simp [Lexeme, Spec.Lexical.stringValue] at hl
+    | cons c t =>
+      have hc : c = 34 := by
+        simp only [Lexeme] at hl
+        unfold Spec.Lexical.stringValue at hl
+        split at hl
+        · rename_i t' heq; simp only [List.cons.injEq] at heq; exact heq.1
+        · cases hl
+      subst hc; exact ts_cons _ _ (by decide)
+  | blockString =>
+    simp only [Lexeme, Option.map_eq_some_iff] at hl
+    obtain ⟨raw, hraw, _⟩ := hl
+    unfold Spec.Lexical.blockStringRaw at hraw
+    split at hraw
+    · rename_i hp
+      obtain ⟨u, rfl⟩ := tq_prefix_eq lex hp
+      exact ts_cons _ _ (by decide)
+    · cases hraw
+  | ellip =>
+    simp only [Lexeme, Spec.Lexical.punctuator, TokKind.constText, Option.some.injEq] at hl
+    obtain ⟨rfl, _⟩ := hl
+    exact ts_cons _ _ (by decide)
+  | bang | dollar | parenL | parenR | bracketL | bracketR | curlyL | curlyR | colon | equals | atSign | pipe | amp =>
+    simp only [Lexeme, Spec.Lexical.punctuator, TokKind.constText, Option.some.injEq] at hl
+    obtain ⟨rfl, _⟩ := hl
+    exact ts_cons _ _ (by decide)
+
+private theorem next_complete (n : Nat) (ign lex rest v : Text) (k : TokKind)
     (hrun : IgnRun (lex ++ rest) ign) (hl : Lexeme k lex v) (hf : Follow k lex rest) :
     next n (ign ++ (lex ++ rest)) = .ok (tokAt n k lex rest v, some rest) := by
   have punct : ∀ c, Spec.Lexical.punctuator k = some [c] → lex = [c] → v = [c] →
@@ -124,12 +193,27 @@ private theorem next_complete (n : Nat) (ign lex rest v : Text) (k : TokKind) (h
     intro c hp hlex hv
     subst hlex; subst hv
     exact next_punct n ign rest c k ((symbolKind_spec c k).mpr hp) hrun
+  have hX := lexeme_tokenStart k lex v rest hl
   cases k with
   | sof => exact absurd hl (by simp [Lexeme])
   | eof => exact absurd hl (by simp [Lexeme])
-  | int => exact absurd rfl hk.1
-  | float => exact absurd rfl hk.2.1
-  | blockString => exact absurd rfl hk.2.2
+  | int =>
+    obtain ⟨h1, h2⟩ := hl
+    subst h2
+    rw [next_skip n ign _ hrun hX, next_int_value n _ rest h1 hf]
+    simp [tokAt, posAt]
+  | float =>
+    obtain ⟨h1, h2⟩ := hl
+    subst h2
+    rw [next_skip n ign _ hrun hX,
+      next_float_shape n _ rest (PrintLex.floatShape_of_isFloatValue _ h1) hf]
+    simp [tokAt, posAt]
+  | blockString =>
+    simp only [Lexeme, Option.map_eq_some_iff] at hl
+    obtain ⟨raw, hraw, hv⟩ := hl
+    rw [next_skip n ign _ hrun hX, next_block_lexeme n lex rest raw hraw,
+      PyGql.Props.C02.block_string_spec, hv]
+    simp [tokAt, posAt]
   | name =>
     obtain ⟨h1, h2⟩ := hl
     subst h2
@@ -144,8 +228,7 @@ private theorem next_complete (n : Nat) (ign lex rest v : Text) (k : TokKind) (h
     obtain ⟨rfl, rfl⟩ := hl
     exact punct _ rfl rfl rfl
 
-private theorem lexLoop_complete (n : Nat) (s : Text) (toks : List Tok) (h : Tiles n s toks)
-    (hk : ∀ t ∈ toks, t.kind = .eof ∨ Rendered t.kind) :
+private theorem lexLoop_complete (n : Nat) (s : Text) (toks : List Tok) (h : Tiles n s toks) :
     ∀ fuel, s.length < fuel → lexLoop n fuel s = .ok toks := by
   induction h with
   | eof ign hrun =>
@@ -163,50 +246,51 @@ private theorem lexLoop_complete (n : Nat) (s : Text) (toks : List Tok) (h : Til
     cases fuel with
     | zero => omega
     | succ f =>
-      have hkk : Rendered k := by
-        rcases hk _ (List.mem_cons_self) with h | h
-        · simp only at h; subst h; exact absurd hl (by simp [Lexeme])
-        · exact h
-      have hne := lexeme_ne_nil k lex v hkk hl
-      have hnext := next_complete n ign lex rest v k hkk hrun hl hfo
+      have hne := lexeme_ne_nil k lex v hl
+      have hnext := next_complete n ign lex rest v k hrun hl hfo
       have hlen : rest.length < f := by
         cases lex with
         | nil => exact absurd rfl hne
         | cons x xs => simp at hf; omega
-      have := ih (fun t ht => hk t (List.mem_cons_of_mem _ ht)) f hlen
+      have := ih f hlen
       simp [lexLoop, hnext, this, tokAt]
 
-/-- `lex_render_partial`: for every tiling whose tokens are punctuators, `...`, names or quoted strings, `lexAll` returns
-    exactly the tiling's tokens (kinds, spans, values) — whatever ignored runs (white space, line terminators, commas,
-    BOMs, comments) stand between the lexemes, as long as each lexeme is followed by something its kind allows (`Follow`:
-    a name is not directly followed by a name character; `""` not by `"`).
-    MISSING for the full `LexRenderStatement`: completeness of `_read_number` against `isIntValue` / `isFloatValue` and of
-    `_read_block_string` against `blockStringRaw` (their soundness is in `lex_sound`); covered by the correspondence
-    (token sequences under random ignored runs, oracle O3). -/
-theorem lex_render_partial (s : Text) (body : List Tok) (h : Tiles s.length s body)
-    (hk : ∀ t ∈ body, t.kind = .eof ∨ Rendered t.kind) : lexAll s = .ok (sofTok :: body) := by
+/-- `lex_render` (FULL, all token kinds): for every tiling of a text — lexemes that are complete Punctuators, Names,
+    IntValues, FloatValues, StringValues or block StringValues according to Spec/Lexical.lean, each followed by something
+    its kind allows (`Follow`: maximal munch, number look-ahead, `""` not before `"`), separated by ANY ignored runs
+    (white space, line terminators LF / CR / CRLF, commas, BOMs, maximal comments) — `lexAll` returns exactly the
+    tiling's tokens: kinds, spans and values. -/
+theorem lex_render (s : Text) (body : List Tok) (h : Tiles s.length s body) : lexAll s = .ok (sofTok :: body) := by
   unfold lexAll
-  rw [lexLoop_complete _ _ _ h hk _ (Nat.lt_succ_self _)]
+  rw [lexLoop_complete _ _ _ h _ (Nat.lt_succ_self _)]
+
+/-- the full statement is closed -/
+theorem lex_render_statement : LexRenderStatement := lex_render
+
+/-- `lexAll` accepts exactly the tiled texts, and returns the tiling: soundness and completeness together.
+    This is the lexical half of "text accepted ⇔ text derives from the grammar". -/
+theorem lexAll_ok_iff (s : Text) (toks : List Tok) :
+    lexAll s = .ok toks ↔ ∃ body, toks = sofTok :: body ∧ Tiles s.length s body :=
+  ⟨lex_sound s toks, fun ⟨body, e, h⟩ => e ▸ lex_render s body h⟩
 
 /-- kind and value of a token (what is left when positions are forgotten) -/
 def kv (t : Tok) : TokKind × Text := (t.kind, t.value)
 
-/-- `lex_ignored_invariant_partial`: ignored characters are insignificant. If the lexer accepts `s₁`, then every other
+/-- `lex_ignored_invariant` (FULL): ignored characters are insignificant. If the lexer accepts `s₁`, then every other
     text `s₂` tiled by lexemes with the same kinds and values (i.e. `s₁` with its ignored runs replaced by any other
-    admissible ignored runs) is accepted with the same kinds and values. (Partial as `lex_render_partial`: the tokens
-    are punctuators, `...`, names and quoted strings.) -/
-theorem lex_ignored_invariant_partial (s₁ s₂ : Text) (toks₁ body₂ : List Tok) (h₁ : lexAll s₁ = .ok toks₁)
-    (h₂ : Tiles s₂.length s₂ body₂) (hk : ∀ t ∈ body₂, t.kind = .eof ∨ Rendered t.kind)
-    (hsame : toks₁.tail.map kv = body₂.map kv) :
+    admissible ignored runs — white space, commas, comments, BOMs, any line-terminator convention) is accepted with the
+    same token kinds and values. -/
+theorem lex_ignored_invariant (s₁ s₂ : Text) (toks₁ body₂ : List Tok) (h₁ : lexAll s₁ = .ok toks₁)
+    (h₂ : Tiles s₂.length s₂ body₂) (hsame : toks₁.tail.map kv = body₂.map kv) :
     ∃ toks₂, lexAll s₂ = .ok toks₂ ∧ toks₂.map kv = toks₁.map kv := by
   obtain ⟨body₁, rfl, _⟩ := lex_sound s₁ toks₁ h₁
-  refine ⟨sofTok :: body₂, lex_render_partial s₂ body₂ h₂ hk, ?_⟩
+  refine ⟨sofTok :: body₂, lex_render s₂ body₂ h₂, ?_⟩
   simp only [List.tail_cons] at hsame
   simp [hsame]
 
-/-- non-vacuity: `{a}` and ` { ,a #c<LF>}` have the same tokens up to positions -/
-example : ((lexAll [123, 97, 125]).toOption.map (·.map kv)) =
-    ((lexAll [32, 123, 32, 44, 97, 32, 35, 99, 10, 125]).toOption.map (·.map kv)) := by decide
+/-- non-vacuity: `{a 1.5}` and ` { ,a #c<CR>1.5}` have the same tokens up to positions -/
+example : ((lexAll [123, 97, 32, 49, 46, 53, 125]).toOption.map (·.map kv)) =
+    ((lexAll [32, 123, 32, 44, 97, 32, 35, 99, 13, 49, 46, 53, 125]).toOption.map (·.map kv)) := by decide
 
 /-- THE FULL STATEMENT of the property's error clause for the lexer: every syntax error reports a
     position inside the submitted text. It is FALSE on today's code (see `error_in_range_refuted`). -/
